@@ -157,6 +157,50 @@ theorem dataSmooth_const {F : Type} [Field F] [LinearOrder F] [IsStrictOrderedRi
         exact smoother_const_of_pos s a c j' (hj' a s hs) (hpos a s hs)
   exact key l _ (fun _ _ => rfl) idx hin
 
+/-! ## the memoised `dataSmooth` and the in-place `add` -/
+
+theorem cacheOk_step (sm : Nat → Option (Smoother K)) (nE : Nat) (s : Cached K) (op : Op K)
+    (h : CacheOk sm nE s) : CacheOk sm nE (step sm nE s op) := by
+  cases op with
+  | read =>
+    intro c hc
+    simp only [step, Option.some.injEq] at hc
+    subst hc
+    unfold observe
+    cases hs : s.cache with
+    | none => rfl
+    | some c' => exact h c' hs
+  | add B => intro c hc; simp [step] at hc
+
+/-- T7 (any history).  After ANY sequence of reads of `dataSmooth` and in-place `add`s, starting from a fresh
+    result, `dataSmooth` is the smoothed current data — never a stale value. -/
+theorem observe_after_history (sm : Nat → Option (Smoother K)) (nE : Nat) (A : Arr K) (ops : List (Op K)) :
+    observe sm nE (runOps sm nE ⟨A, none⟩ ops) = dataSmooth sm nE (runOps sm nE ⟨A, none⟩ ops).data := by
+  have hinv : ∀ (ops : List (Op K)) (s : Cached K), CacheOk sm nE s → CacheOk sm nE (runOps sm nE s ops) := by
+    intro ops
+    induction ops with
+    | nil => intro s h; exact h
+    | cons op ops ih => intro s h; exact ih _ (cacheOk_step sm nE s op h)
+  have h := hinv ops ⟨A, none⟩ (by intro c hc; simp at hc)
+  unfold observe
+  cases hs : (runOps sm nE ⟨A, none⟩ ops).cache with
+  | none => rfl
+  | some c => exact h c hs
+
+/-- T7' the history the old code got wrong: read, `add(B)`, read again gives the smoothed sum
+    `dataSmooth(A) + dataSmooth(B)`. -/
+theorem read_add_read (sm : Nat → Option (Smoother K)) (nE : Nat) (A B : Arr K) :
+    observe sm nE (runOps sm nE ⟨A, none⟩ [.read, .add B, .read])
+      = fun x => dataSmooth sm nE A x + dataSmooth sm nE B x := by
+  rw [observe_after_history]
+  have := dataSmooth_linear sm nE A B 1 1
+  simp only [one_mul] at this
+  exact this
+
+/-- … whereas the original `add` kept the memoised value: the second read returned the smoothed OLD data -/
+theorem old_add_keeps_stale_cache (sm : Nat → Option (Smoother K)) (nE : Nat) (A B : Arr K) :
+    observe sm nE ([Op.read, Op.add B, Op.read].foldl (stepOld sm nE) ⟨A, none⟩) = dataSmooth sm nE A := rfl
+
 /-! ## the defect that was repaired (finding F1) -/
 
 /-- the original loop returns the axis-0 smoother applied to the raw data, whatever the other smoothers are -/
